@@ -256,7 +256,19 @@ func init() {
 		switch u := iv.T.Underlying().(type) {
 		case *types.Map:
 			if isByteSlice(u.Elem()) {
-				return ret(TupleV{e.marshalXattrMap(iv.V.(*MapV)), nilIface})
+				// a RawMessage member that is not valid JSON makes json.Marshal fail
+				m := iv.V.(*MapV)
+				if !m.isNil {
+					bad := tFalse
+					for _, en := range m.entries {
+						v := en.v.(*BytesV)
+						bad = tOr(bad, tAnd(tNot(v.Nil), tNot(jsonValid(v.S))))
+					}
+					if e.branch(bad) {
+						return ret(TupleV{&BytesV{Nil: tTrue, S: toBlob(mkStr(""))}, e.newError("json", "error calling MarshalJSON for type json.RawMessage")})
+					}
+				}
+				return ret(TupleV{e.marshalXattrMap(m), nilIface})
 			}
 			if _, isIface := u.Elem().Underlying().(*types.Interface); isIface {
 				return ret(TupleV{e.marshalObject(iv.V), nilIface})
